@@ -9,6 +9,15 @@ Three things happen to every case line (grammar: model/net_main.ml):
      against the peer stream, min <= n <= buflen, every recv/send asked for exactly the rest of the
      buffer at the current offset, no transfer after completion / cancel / failure, prefix
      property of the writer, window bounds of the reader, first-success for connect.
+
+netbuf_read.c / netbuf_write.c have two transport branches with duplicated argument computations:
+the plain-socket one (network_read / network_write on R->s / W->s) and the context one used for
+TLS (R->ssl / W->ssl != NULL: calls through netbuf_{read,write}_ssl_func and ..._cancel_func).
+Every netbuf scenario is therefore run in BOTH modes: as "sc ..." (netbuf_read_init(fd)) and as
+"scx ..." (netbuf_read_init2(-1, ctx), with a context transport in drv_net.c that forwards
+unchanged to network_read / network_write on fd).  The model is transport-agnostic at this level
+(the transport contract is C06's), so it gets the plain form and both implementation logs are
+compared with its one log; the independent checker evaluates both logs.
 """
 import re
 import vlib
@@ -1181,17 +1190,41 @@ def _replay_cases(ctx, sub):
     return [f["case"] for f in rep.get("failures", []) if f.get("sub") == sub and f.get("case")]
 
 
-def _run(ctx, sub, cases, checker, rule):
+def to_ctx_mode(case):
+    """sc ... -> scx ...: the same scenario with the netbuf objects on the context transport"""
+    t = case.split(None, 1)
+    return case if t[0] != "sc" else "scx" + (" " + t[1] if len(t) > 1 else "")
+
+
+def to_plain_mode(case):
+    t = case.split(None, 1)
+    return case if t[0] != "scx" else "sc" + (" " + t[1] if len(t) > 1 else "")
+
+
+def _run(ctx, sub, cases, checker, rule, also_ctx=()):
+    """also_ctx: the (plain) cases that are run a second time over the context transport"""
     exe, mexe = build(ctx, sub)
     if not exe or not mexe:
         return
+    cases = list(cases) + [to_ctx_mode(c) for c in also_ctx]
     rc = _replay_cases(ctx, sub)
     if rc is not None:
         if not rc:
             return
         cases = rc
+    if also_ctx or rc is not None:
+        ctx.count(sub + ".mode.plain", sum(1 for c in cases if not c.startswith("scx ")))
+        ctx.count(sub + ".mode.context", sum(1 for c in cases if c.startswith("scx ")))
     impl, st = vlib.run_sharded(exe, cases, env=ASAN_ENV)
-    model, _ = vlib.run_sharded(mexe, cases)
+    # one model log per scenario, whatever the transport mode of the implementation run
+    plain = [to_plain_mode(c) for c in cases]
+    uniq = list(dict.fromkeys(plain))
+    mout, _ = vlib.run_sharded(mexe, uniq)
+    if len(mout) != len(uniq):
+        ctx.fail(sub, "crash", "", "output count mismatch model=%d cases=%d" % (len(mout), len(uniq)))
+        return
+    mlog = dict(zip(uniq, mout))
+    model = [mlog[c] for c in plain]
     nd = nk = 0
     nontrivial = set()
     for c, a, m in zip(cases, impl, model):
@@ -1255,19 +1288,36 @@ def check_net_accept(ctx):
          "from inside the callback, cancel")
 
 
+def _second_mode(ctx, corpus, gen):
+    """the cases that are run over the context transport as well: the whole corpus and CTX_SHARE
+    of the generated cases (every CTX_STRIDE-th is left out in the quick tier to bound the time)"""
+    if ctx.quick and CTX_STRIDE_QUICK > 1:
+        gen = [c for i, c in enumerate(gen) if i % CTX_STRIDE_QUICK != CTX_STRIDE_QUICK - 1]
+    return corpus + gen
+
+
+CTX_STRIDE_QUICK = 1     # 1 = every generated case in both modes also in the quick tier
+
+BOTH_MODES = ("; every scenario is run twice, with the object attached to a descriptor (network_read / "
+              "network_write branch) and to a context transport (netbuf_*_init2(-1, ctx): the "
+              "netbuf_*_ssl_func branch used for TLS), both logs against the one model log")
+
+
 def check_netbuf_read(ctx):
-    cases = corpus_cases(("nbr_", "cancel_partial_loss")) + gen_nbr(ctx, ctx.n(700, 20000))
-    _run(ctx, "netbuf_read", cases, _sc_checker,
+    corpus, gen = corpus_cases(("nbr_", "cancel_partial_loss")), gen_nbr(ctx, ctx.n(700, 20000))
+    _run(ctx, "netbuf_read", corpus + gen, _sc_checker,
          "netbuf reader: wait/peek/consume/cancel scripts (also from inside the wait callback) with k from "
          "{0,1,4095,4096,4097,8192,100000,random} against arrival segmentations down to one byte, EOF and errors at "
-         "any position; every peek compared with the peer stream by an independent evaluator")
+         "any position; every peek compared with the peer stream by an independent evaluator" + BOTH_MODES,
+         also_ctx=_second_mode(ctx, corpus, gen))
 
 
 def check_netbuf_write(ctx):
-    cases = corpus_cases(("nbw_",)) + gen_nbw(ctx, ctx.n(700, 20000))
-    _run(ctx, "netbuf_write", cases, _sc_checker,
+    corpus, gen = corpus_cases(("nbw_",)), gen_nbw(ctx, ctx.n(700, 20000))
+    _run(ctx, "netbuf_write", corpus + gen, _sc_checker,
          "netbuf writer: write / reserve+consume with sizes {0,1,4095,4096,4097,8192,100000,random}, partial sends, "
-         "retry bursts, transport failure at any position; wire = prefix of concat(writes), fail callback once")
+         "retry bursts, transport failure at any position; wire = prefix of concat(writes), fail callback once" +
+         BOTH_MODES, also_ctx=_second_mode(ctx, corpus, gen))
 
 
 SUBCHECKS = {"C06": [check_net_rw, check_net_connect, check_net_accept],
@@ -1329,10 +1379,20 @@ def check_net_allocfail(ctx):
     extra = gen_rw(q, 12) + gen_accept(q, 4) + gen_nbw(q, 40, big_every=10 ** 9)[:8] + gen_nbr(q, 40, big_every=10 ** 9)[:8]
     extra = [c for c in extra if len(c) < 400 and "100000" not in c]
     base += extra + gen_connect(q, 6)[-6:]
+    # the netbuf scenarios a second time over the context transport (the other branch of
+    # netbuf_read.c / netbuf_write.c; the forwarding transport allocates nothing itself)
+    nplain = len(base)
+    base += [to_ctx_mode(c) for c in base if c.startswith("sc ") and ("nri:" in c or "nwi:" in c)]
+    ctx.count("allocfail.base_cases.context_transport", len(base) - nplain)
     base_out, st0 = vlib.run_sharded(exe, base, env=ASAN_ENV)
+    plain_base = {c: a for c, a in zip(base[:nplain], base_out[:nplain])}
     cases, ref = [], []
     for c, a in zip(base, base_out):
         core, extra_t, status = split_impl(a)
+        if c.startswith("scx ") and a != plain_base.get(to_plain_mode(c)):
+            ctx.fail(sub, "property", c, "the run over the context transport differs from the run of the same scenario "
+                     "on a descriptor: ctx=%s || plain=%s" % (a[:300], (plain_base.get(to_plain_mode(c)) or "")[:300]),
+                     property_fails=True)
         m = re.search(r"allocs=(\d+)", a)
         if status or not m:
             ctx.fail(sub, "crash", c, "baseline run failed: " + a[-300:], property_fails=True)
@@ -1423,7 +1483,8 @@ def check_net_allocfail(ctx):
             ctx.fail(sub, "crash", "", "driver exit rc=%d: %s" % (rc, err[-300:]), property_fails=True)
     ctx.count(sub + ".disagreements", nd)
     ctx.record(sub, cases, nontrivial,
-               "for %d scenarios (read/write/accept/connect/netbuf reader/writer): fail the k-th library "
+               "for %d scenarios (read/write/accept/connect/netbuf reader/writer, the netbuf ones on a descriptor "
+               "and over the context transport): fail the k-th library "
                "allocation for every k (quick: up to 14 sampled k per scenario) and persistently from k on; "
                "checked: failure reported (NULL/-1/callback -1/run -1), no abort, no sanitizer report, no leak "
                "(LeakSanitizer per case), nothing left registered, retried call gives the baseline run" % len(base),
